@@ -229,6 +229,12 @@ func (c *Compressor) compressValue(v float64) (uint64, error) {
 	leadingZeros := leardingZeros(xor)
 	trailingZeros := trailingZeros(xor)
 
+	// The leading-zeros count is stored in 5 bits, so it cannot exceed 31.
+	// The extra zero bits simply become part of the meaningful bits.
+	if leadingZeros >= 32 {
+		leadingZeros = 31
+	}
+
 	if err := c.bw.writeBit(one); err != nil {
 		log.Errorf("Compressor.compressValue: failed to write one bit. compressor=%+v, bitWriter=%+v, err=%v", c, c.bw, err)
 		return 0, fmt.Errorf("failed to write one bit: %w", err)
